@@ -27,6 +27,16 @@ pub trait Suite:
     type Other: Suite;
     const NAME: &'static str;
     const CURVE: Bls12381;
+    /// The same group element in another INTERNAL representation: Jacobian coordinates rescaled
+    /// with lambda = -1, i.e. (X, -Y, -Z). It compares equal to `p` and encodes to the same bytes,
+    /// but never comes out of a decoder (Z = 1) or of ordinary arithmetic. `None` where the
+    /// backend has no raw constructor (pure-Rust build).
+    fn pk_other_representation(_p: &PkPt<Self>) -> Option<PkPt<Self>> {
+        None
+    }
+    fn sig_other_representation(_p: &SigPt<Self>) -> Option<SigPt<Self>> {
+        None
+    }
 }
 
 impl Suite for Bls12381G1Impl {
@@ -34,6 +44,14 @@ impl Suite for Bls12381G1Impl {
     type Other = Bls12381G2Impl;
     const NAME: &'static str = "G1Impl";
     const CURVE: Bls12381 = Bls12381::G1;
+    #[cfg(feature = "blst")]
+    fn pk_other_representation(p: &PkPt<Self>) -> Option<PkPt<Self>> {
+        Some(blsful::inner_types::G2Projective::from_raw_unchecked(p.x(), -p.y(), -p.z()))
+    }
+    #[cfg(feature = "blst")]
+    fn sig_other_representation(p: &SigPt<Self>) -> Option<SigPt<Self>> {
+        Some(blsful::inner_types::G1Projective::from_raw_unchecked(p.x(), -p.y(), -p.z()))
+    }
 }
 
 impl Suite for Bls12381G2Impl {
@@ -41,6 +59,14 @@ impl Suite for Bls12381G2Impl {
     type Other = Bls12381G1Impl;
     const NAME: &'static str = "G2Impl";
     const CURVE: Bls12381 = Bls12381::G2;
+    #[cfg(feature = "blst")]
+    fn pk_other_representation(p: &PkPt<Self>) -> Option<PkPt<Self>> {
+        Some(blsful::inner_types::G1Projective::from_raw_unchecked(p.x(), -p.y(), -p.z()))
+    }
+    #[cfg(feature = "blst")]
+    fn sig_other_representation(p: &SigPt<Self>) -> Option<SigPt<Self>> {
+        Some(blsful::inner_types::G2Projective::from_raw_unchecked(p.x(), -p.y(), -p.z()))
+    }
 }
 
 #[macro_export]
